@@ -7,6 +7,7 @@ package cfgw
 
 import (
 	"context"
+	"errors"
 	"fmt"
 	"io"
 	"net/http"
@@ -62,6 +63,7 @@ type version struct {
 	valid bool
 	ns    []string // namespaces this version denotes (valid versions only)
 	rm    bool
+	errEv bool // not a version at all: the watcher reports a transient read / stat ERROR for the file
 }
 
 func oplDoc(names ...string) string {
@@ -81,6 +83,8 @@ func oplAlphabet() []version {
 		{name: "rm f1", file: "/d/f1.ts", rm: true, valid: true},
 		{name: "f2=W1", file: "/d/f2.ts", data: oplDoc("C"), valid: true, ns: []string{"C"}},
 		{name: "f2=BAD", file: "/d/f2.ts", data: "class {"},
+		// an ERROR event of the watcher for a loaded file is not a version: nothing may change
+		{name: "f1=ERROR-EVENT", file: "/d/f1.ts", errEv: true},
 	}
 }
 
@@ -106,6 +110,7 @@ func legacyAlphabet(ext string) []version {
 		{name: "rm f1", file: f1, rm: true, valid: true},
 		{name: "f2=W1", file: f2, data: mk(3, "C"), valid: true, ns: []string{"C"}},
 		{name: "f2=BAD", file: f2, data: bad},
+		{name: "f1=ERROR-EVENT", file: f1, errEv: true},
 	}
 }
 
@@ -228,7 +233,9 @@ func runHistory(mk func(*logrusx.Logger) config.VerifHandler, l *logrusx.Logger,
 			defer wg.Done()
 			for _, v := range hist {
 				issued++
-				if v.rm {
+				if v.errEv {
+					vsched.Send(eventCh, watcherx.Event(watcherx.NewErrorEvent(errors.New("verif: transient read error"), v.file)))
+				} else if v.rm {
 					vsched.Send(eventCh, removeEvent(v.file))
 				} else {
 					vsched.Send(eventCh, changeEvent(v.file, []byte(v.data)))
